@@ -1,7 +1,7 @@
 #!/bin/bash
 # quick-confirm (demo pass/fail + build), detect and keep every delivered seed not yet under /verif/seeded
 cd /verif
-for d in /tmp/seeds/C*/; do id=$(basename $d); for v in a b c d e f; do
+for d in /tmp/seeds/C*/; do id=$(basename $d); for v in a b c d e f g h; do
   s=$d$v
   [ -f $s/patch.diff ] && [ -f $s/meta.json ] && [ -f $s/demo_path.txt ] || continue
   [ -d /verif/seeded/$id-$v ] && [ "$1" != "--all" ] && continue
